@@ -76,7 +76,7 @@ def formats():
     """message formats of the diagnostics table (src/express/error.c), as regexes with one group per argument"""
     if _FMT:
         return _FMT
-    src = open('/repo/src/express/error.c', encoding='latin1').read()
+    src = open(common.REPO + '/src/express/error.c', encoding='latin1').read()
     for m in re.finditer(r'\[(\w+)\]\s*=\s*\{\s*SEVERITY_\w+\s*,\s*((?:"(?:[^"\\]|\\.)*"\s*)+)', src):
         fmt = ''.join(re.findall(r'"((?:[^"\\]|\\.)*)"', m.group(2)))
         if '%' not in fmt:
